@@ -31,6 +31,10 @@ def mx_getattr(self, ex, st, name):
         return Fn(model=lambda ex, st, a, k: MX(("sum", self.node, k.get("dim", a[0] if a else None))), name="sum")
     if name == "shape":
         return ("B", "D")
+    if name == "clamp":
+        return Fn(model=lambda ex, st, a, k: MX(("clamp-open-unit", self.node)), name="clamp")      # clamp into (-1, 1): atanh stays finite
+    if name == "dtype":
+        return Opaque("dtype")
     if name == "reshape":
         # reshape to the distribution's own batch shape: the abstract action already has it (values and order are unchanged)
         return Fn(model=lambda ex, st, a, k: self, name="reshape")
@@ -288,6 +292,8 @@ def build(tier):
     P.lib["torch.full_like"] = lambda ex, st, a, k: Vec(a[0].n, z3.K(z3.IntSort(), TT.toreal(a[1])), "full")
     P.lib["torch.log"] = lambda ex, st, a, k: MX(("log", a[0].node))
     P.lib["torch.tanh"] = lambda ex, st, a, k: MX(("tanh", a[0].node))
+    P.lib["torch.atanh"] = lambda ex, st, a, k: MX(("atanh", a[0].node))
+    P.lib["torch.finfo"] = lambda ex, st, a, k: Obj("model.finfo", {"eps": z3.Real("float_eps")}, label="finfo")
 
     def mask_post(result):
         kk = z3.Int("k!mp")
@@ -355,8 +361,9 @@ def build(tier):
 
         def lp_argument(result, h=h, squash=squash):
             # the density has to be evaluated at the pre-squash value of the GIVEN action
-            want = ("atanh", "action") if squash else "action"
-            return z3.BoolVal(len(h.calls) == 1 and h.calls[0][1] == want)
+            # (the given action may be clamped into the open interval (-1, 1) first so that atanh stays finite)
+            want = [("atanh", "action"), ("atanh", ("clamp-open-unit", "action"))] if squash else ["action"]
+            return z3.BoolVal(len(h.calls) == 1 and h.calls[0][1] in want)
         P.specns[f"lp_wiring_{tag}"], P.specns[f"lp_argument_{tag}"] = lp_wiring, lp_argument
         P.contract(NET + "TorchDistribution.log_prob", variant=tag, setup=setup, params={}, requires=[], frame_fields=False,
                    ensures=[f"lp_wiring_{tag}(result)", f"lp_argument_{tag}(result)"], replay="c16:squash" if squash else "c16:logprob")
